@@ -259,7 +259,7 @@ def parent(pid, tier, seed, only_unit=None, replay=None):
         (known_hits if full in known else new_viol)[k] = v
 
     floor = getattr(mod, "FLOOR", {"quick": 2, "thorough": 2}).get(tier, 2)
-    if len(nontrivial) < max(2, floor) and not new_viol:
+    if len(nontrivial) < max(2, floor) and not new_viol and not only_unit:
         inconclusive.append(f"only {len(nontrivial)} distinct non-trivial cases (floor {floor})")
 
     replays = []
